@@ -79,6 +79,13 @@ class PartitionContainerBase(TypeReaderCryptoBase):
 
         self.partitions = {}
 
+    def close(self):
+        if not self.closed:
+            # the level files of the partitions must not be usable once the container is closed
+            for partition in getattr(self, 'partitions', {}).values():
+                partition.dpfs_lv3_file.close()
+        super().close()
+
     def _load_partition(self, index: int, partdesc: bytes, partition_offset: int, partition_size: int):
         subfile = SubsectionIO(self._file, partition_offset, partition_size)
 
